@@ -45,7 +45,7 @@ class ShapelyPolygon(Domain):
 
     def _contains(self, points, params=Points.empty()):
         if isinstance(points, Points):
-            points = points.as_tensor
+            points = points[:, list(self.space.keys())].as_tensor
         inside = torch.zeros(len(points), 1)
         for i in range(len(points)):
             point = s_geo.Point(points[i])
@@ -197,7 +197,7 @@ class ShapelyBoundary(BoundaryDomain):
         return self
 
     def _contains(self, points, params=Points.empty()):
-        points = points.as_tensor
+        points = points[:, list(self.space.keys())].as_tensor
         on_bound = torch.empty(len(points), dtype=bool, device=points.device)
         for i in range(len(points)):
             point = s_geo.Point(points[i])
